@@ -125,10 +125,9 @@ class C05(Prop):
         if op in ("set.parse",):
             return f"{op}:{'len=' + head[1] if head[0] == 'ok' else ' '.join(head[:2])}:{args[0][:1]}"
         if op in ("set.contains", "set.andcontains"):
-            ovs = "".join(args[i] for i in ((1, 5) if op == "set.contains" else (1, 3, 6)))
-            return f"{op}:{out[:16]}:ov={ovs}"
+            return f"{op}:{out[:16]}:p={args[5] if op == 'set.contains' else args[6]}"
         if op == "set.and":
-            return f"{op}:{' '.join(head[:1]) if head[0] == 'ok' else out}:{args[1]}{args[3]}"
+            return f"{op}:{'ok ov=' + out.rsplit(' ', 1)[-1] if head[0] == 'ok' else out}"
         if op == "set.eq":
             return f"{op}:{out}"
         return f"{op}:{head[0]}"
